@@ -942,6 +942,10 @@ func checkSpecConstantNames(p *core.Prog, r *core.Report, rule string) int {
 				pairs = append(pairs, core.RelPkg(f.Pkg.Pkg.Path())+": "+fname+" <- "+key)
 				// "SyncSubcommittee" is shortened to "SyncCommittee" in one field name: compare without the "sub"
 				nf, nk := strings.ReplaceAll(normName(fname), "sub", ""), strings.ReplaceAll(normName(key), "sub", "")
+				// DOMAIN_SYNC_COMMITTEE <-> syncCommitteeDomainType: the words "domain" and "type" carry no information
+				for _, wd := range []string{"domain", "type"} {
+					nf, nk = strings.ReplaceAll(nf, wd, ""), strings.ReplaceAll(nk, wd, "")
+				}
 				// judged only where the field is named after a constant: its name ends like a constant's name
 				named := strings.HasPrefix(nf, "targetaggregatorsper") || strings.HasPrefix(nf, "synccommittee") || strings.HasPrefix(nf, "slotsper") || strings.HasPrefix(nf, "epochsper") || strings.HasSuffix(nf, "weight") || strings.HasSuffix(nf, "denominator")
 				if !named {
